@@ -217,6 +217,9 @@ func (d *Dumper) ValueLit(in any, optFns ...ValueLitOptFn) string {
 		keyLits := make([]string, 0)
 		keyValues := map[string]reflect.Value{}
 
+		// keys and values are elements, not struct fields: a zero-valued struct must still be printed
+		optFns = append(optFns, SubValue(false))
+
 		for _, key := range rv.MapKeys() {
 			k := d.ValueLit(key, optFns...)
 			keyLits = append(keyLits, k)
